@@ -285,10 +285,19 @@ pub fn conv_expr(d: &D, out: &mut String, log: &mut PosLog) -> Result<(), String
                     let mut last = 0usize;
                     for sl in slots.as_list()? {
                         let (a, b) = match sl {
-                            D::Tuple(None, v) if v.len() == 2 => match (&v[0], &v[1]) {
-                                (D::Num(a), D::Num(b)) => (*a as usize, *b as usize),
-                                _ => return Err("bad slot".into()),
-                            },
+                            // (start, end) or (start, end, (line, col)): the source location of
+                            // the slot is logged with the other positions of the tree
+                            D::Tuple(None, v) if v.len() == 2 || v.len() == 3 => {
+                                if v.len() == 3 {
+                                    if let Ok(p) = v[2].as_pos() {
+                                        log.push(("slot".to_string(), p));
+                                    }
+                                }
+                                match (&v[0], &v[1]) {
+                                    (D::Num(a), D::Num(b)) => (*a as usize, *b as usize),
+                                    _ => return Err("bad slot".into()),
+                                }
+                            }
                             _ => return Err("bad slot".into()),
                         };
                         let lit: String = chars[last..a].iter().collect();
